@@ -182,8 +182,9 @@ func (z *Decimal) Add(x, y *Decimal) *Decimal {
 		// ±0 + ±0
 		z.acc = Exact
 		z.form = zero
-		z.neg = x.neg && y.neg // -0 + -0 == -0
-		if x.neg != y.neg && z.mode == ToNegativeInf {
+		xneg, yneg := x.neg, y.neg // z may alias x or y
+		z.neg = xneg && yneg       // -0 + -0 == -0
+		if xneg != yneg && z.mode == ToNegativeInf {
 			z.neg = true // exact zero sum of opposite signs
 		}
 		return z
@@ -1406,8 +1407,9 @@ func (z *Decimal) Sub(x, y *Decimal) *Decimal {
 		// ±0 - ±0
 		z.acc = Exact
 		z.form = zero
-		z.neg = x.neg && !y.neg // -0 - +0 == -0
-		if x.neg == y.neg && z.mode == ToNegativeInf {
+		xneg, yneg := x.neg, y.neg // z may alias x or y
+		z.neg = xneg && !yneg      // -0 - +0 == -0
+		if xneg == yneg && z.mode == ToNegativeInf {
 			z.neg = true // exact zero difference of like signs
 		}
 		return z
